@@ -2031,8 +2031,9 @@ func (r *TypeClassSummonContext) _summonVar(tc metafp.TypeClassDerive) SummonExp
 	mapExpr := option.Map(tc.StructInfo, func(s metafp.TaggedStruct) SummonExpr {
 		fields := s.Fields
 		//privateFields := fields.FilterNot(metafp.StructField.Public)
+		// the same fields as the generated AsTuple / Unapply : no underscore fields, no empty embedded structs
 		allFields := fields.FilterNot(func(v metafp.StructField) bool {
-			return strings.HasPrefix(v.Name, "_")
+			return strings.HasPrefix(v.Name, "_") || (v.Embedded && v.FieldType.Underlying().IsStruct() && v.FieldType.Fields().Size() == 0)
 		})
 
 		return r.summonStruct(ctx, tc.TypeClass, tc.DeriveFor, allFields)
